@@ -111,6 +111,19 @@ pub uninterp spec fn ixor(a: int, b: int) -> int;
 // ------------------------------------------------------------------ LazyBigint by contract (V-int)
 // values are canonical (wf) by V-int's postconditions, so a value is identified with the integer it denotes
 pub struct LazyBigint { pub v: Ghost<int> }
+// comparison of LazyBigint: `Ord::cmp` / derived `PartialEq` under contract in V-int (the order / equality of the values)
+impl PartialEq for LazyBigint { #[verifier::external_body] fn eq(&self, o: &Self) -> bool { unimplemented!() } }
+impl vstd::std_specs::cmp::PartialEqSpecImpl for LazyBigint {
+    open spec fn obeys_eq_spec() -> bool { true }
+    open spec fn eq_spec(&self, o: &Self) -> bool { self.v@ == o.v@ }
+}
+impl PartialOrd for LazyBigint { #[verifier::external_body] fn partial_cmp(&self, o: &Self) -> Option<core::cmp::Ordering> { unimplemented!() } }
+impl vstd::std_specs::cmp::PartialOrdSpecImpl for LazyBigint {
+    open spec fn obeys_partial_cmp_spec() -> bool { true }
+    open spec fn partial_cmp_spec(&self, o: &Self) -> Option<core::cmp::Ordering> {
+        Some(if self.v@ < o.v@ { core::cmp::Ordering::Less } else if self.v@ == o.v@ { core::cmp::Ordering::Equal } else { core::cmp::Ordering::Greater })
+    }
+}
 impl LazyBigint {
     pub open spec fn val(self) -> int { self.v@ }
     #[verifier::external_body]
